@@ -121,6 +121,27 @@ pub fn random_gas_costs(rng: &mut Rng) -> GasCosts {
         }
     }
     walk(&mut v, rng);
+    // every loop iteration must consume gas, otherwise a generated loop never ends (as
+    // with GasCosts::free()): keep the jump costs >= 1, everything else may be 0
+    fn force_jumps(v: &mut Value) {
+        const JUMPS: [&str; 12] = ["ji", "jmp", "jne", "jnei", "jnzi", "jmpf", "jmpb", "jnzf", "jnzb", "jnef", "jneb", "jal"];
+        match v {
+            Value::Object(m) => {
+                for (k, x) in m.iter_mut() {
+                    if JUMPS.contains(&k.as_str()) {
+                        if x.as_u64() == Some(0) {
+                            *x = json!(1);
+                        }
+                    } else {
+                        force_jumps(x);
+                    }
+                }
+            }
+            Value::Array(a) => a.iter_mut().for_each(force_jumps),
+            _ => {}
+        }
+    }
+    force_jumps(&mut v);
     serde_json::from_value(v).unwrap_or(d)
 }
 
